@@ -12,6 +12,8 @@ func init() {
 	harn.Register("C05_Mux", RunMux)
 	harn.Register("C05_Wrap", RunWrap)
 	harn.Register("C05_Alloc", RunAlloc)
+	harn.Register("C05_Depleted", RunDepleted)
+	harn.Register("C05_SlowReply", RunSlowReply)
 	harn.Register("C12_Hostile", RunHostile)
 	harn.Register("C12_WriteDeadline", RunWriteDeadline)
 }
@@ -19,10 +21,12 @@ func init() {
 func TestReplay(t *testing.T)  { harn.Replay(t) }
 func TestRegress(t *testing.T) { harn.Regress(t) }
 
-func TestC05_Mux(t *testing.T)     { harn.Check(t, "C05_Mux", GenMux, RunMux) }
-func TestC05_Wrap(t *testing.T)    { harn.Check(t, "C05_Wrap", GenWrap, RunWrap) }
-func TestC05_Alloc(t *testing.T)   { harn.Check(t, "C05_Alloc", GenAlloc, RunAlloc) }
-func TestC12_Hostile(t *testing.T) { harn.Check(t, "C12_Hostile", GenHostile, RunHostile) }
+func TestC05_Mux(t *testing.T)       { harn.Check(t, "C05_Mux", GenMux, RunMux) }
+func TestC05_Wrap(t *testing.T)      { harn.Check(t, "C05_Wrap", GenWrap, RunWrap) }
+func TestC05_Alloc(t *testing.T)     { harn.Check(t, "C05_Alloc", GenAlloc, RunAlloc) }
+func TestC05_Depleted(t *testing.T)  { harn.Check(t, "C05_Depleted", GenDepleted, RunDepleted) }
+func TestC05_SlowReply(t *testing.T) { harn.Check(t, "C05_SlowReply", GenSlowReply, RunSlowReply) }
+func TestC12_Hostile(t *testing.T)   { harn.Check(t, "C12_Hostile", GenHostile, RunHostile) }
 
 // TestC12_ProbeD17 exercises the known finding D17 (see known-findings.txt).
 func TestC12_ProbeD17(t *testing.T) {
